@@ -20,7 +20,10 @@ Inductive dstat := DsNone | DsFlying | DsOver.
    HTTP/2 handle of its origin was checked out by a request that had not been polled yet (the window of
    known finding D6; such a request gets a connector although a connection exists);  ri_avail: a usable (open, unexpired) idle
    connection for its origin existed when it was issued;  ri_aband: it stopped waiting (hand-off of a
-   foreign connection, or cancel) while its own dial was in flight *)
+   foreign connection, or cancel) while its own dial was in flight;  ri_poph: the open multiplexed
+   handle its Issue took out of the idle list (read off the snapshots without any expiry estimate; it
+   delimits the window of known finding D6);  ri_popx: the oldest connection its Issue removed from the
+   idle list (the one it was given, if it was given one) *)
 Record rinfo := mkRi {
   ri_at : nat;
   ri_time : N;
@@ -34,26 +37,31 @@ Record rinfo := mkRi {
   ri_popc : option nat;
   ri_d6 : bool;
   ri_avail : bool;
-  ri_aband : bool
+  ri_aband : bool;
+  ri_poph : option nat;
+  ri_popx : option nat
 }.
-Definition set_ri_at (v : nat) (x : rinfo) : rinfo := mkRi v (ri_time x) (ri_key x) (ri_proto x) (ri_stat x) (ri_pend x) (ri_lastpend x) (ri_dial x) (ri_resolved x) (ri_popc x) (ri_d6 x) (ri_avail x) (ri_aband x).
-Definition set_ri_time (v : N) (x : rinfo) : rinfo := mkRi (ri_at x) v (ri_key x) (ri_proto x) (ri_stat x) (ri_pend x) (ri_lastpend x) (ri_dial x) (ri_resolved x) (ri_popc x) (ri_d6 x) (ri_avail x) (ri_aband x).
-Definition set_ri_key (v : option key) (x : rinfo) : rinfo := mkRi (ri_at x) (ri_time x) v (ri_proto x) (ri_stat x) (ri_pend x) (ri_lastpend x) (ri_dial x) (ri_resolved x) (ri_popc x) (ri_d6 x) (ri_avail x) (ri_aband x).
-Definition set_ri_proto (v : proto) (x : rinfo) : rinfo := mkRi (ri_at x) (ri_time x) (ri_key x) v (ri_stat x) (ri_pend x) (ri_lastpend x) (ri_dial x) (ri_resolved x) (ri_popc x) (ri_d6 x) (ri_avail x) (ri_aband x).
-Definition set_ri_stat (v : rstat) (x : rinfo) : rinfo := mkRi (ri_at x) (ri_time x) (ri_key x) (ri_proto x) v (ri_pend x) (ri_lastpend x) (ri_dial x) (ri_resolved x) (ri_popc x) (ri_d6 x) (ri_avail x) (ri_aband x).
-Definition set_ri_pend (v : bool) (x : rinfo) : rinfo := mkRi (ri_at x) (ri_time x) (ri_key x) (ri_proto x) (ri_stat x) v (ri_lastpend x) (ri_dial x) (ri_resolved x) (ri_popc x) (ri_d6 x) (ri_avail x) (ri_aband x).
-Definition set_ri_lastpend (v : nat) (x : rinfo) : rinfo := mkRi (ri_at x) (ri_time x) (ri_key x) (ri_proto x) (ri_stat x) (ri_pend x) v (ri_dial x) (ri_resolved x) (ri_popc x) (ri_d6 x) (ri_avail x) (ri_aband x).
-Definition set_ri_dial (v : dstat) (x : rinfo) : rinfo := mkRi (ri_at x) (ri_time x) (ri_key x) (ri_proto x) (ri_stat x) (ri_pend x) (ri_lastpend x) v (ri_resolved x) (ri_popc x) (ri_d6 x) (ri_avail x) (ri_aband x).
-Definition set_ri_resolved (v : option bool) (x : rinfo) : rinfo := mkRi (ri_at x) (ri_time x) (ri_key x) (ri_proto x) (ri_stat x) (ri_pend x) (ri_lastpend x) (ri_dial x) v (ri_popc x) (ri_d6 x) (ri_avail x) (ri_aband x).
-Definition set_ri_popc (v : option nat) (x : rinfo) : rinfo := mkRi (ri_at x) (ri_time x) (ri_key x) (ri_proto x) (ri_stat x) (ri_pend x) (ri_lastpend x) (ri_dial x) (ri_resolved x) v (ri_d6 x) (ri_avail x) (ri_aband x).
-Definition set_ri_d6 (v : bool) (x : rinfo) : rinfo := mkRi (ri_at x) (ri_time x) (ri_key x) (ri_proto x) (ri_stat x) (ri_pend x) (ri_lastpend x) (ri_dial x) (ri_resolved x) (ri_popc x) v (ri_avail x) (ri_aband x).
-Definition set_ri_avail (v : bool) (x : rinfo) : rinfo := mkRi (ri_at x) (ri_time x) (ri_key x) (ri_proto x) (ri_stat x) (ri_pend x) (ri_lastpend x) (ri_dial x) (ri_resolved x) (ri_popc x) (ri_d6 x) v (ri_aband x).
-Definition set_ri_aband (v : bool) (x : rinfo) : rinfo := mkRi (ri_at x) (ri_time x) (ri_key x) (ri_proto x) (ri_stat x) (ri_pend x) (ri_lastpend x) (ri_dial x) (ri_resolved x) (ri_popc x) (ri_d6 x) (ri_avail x) v.
+Definition set_ri_at (v : nat) (x : rinfo) : rinfo := mkRi v (ri_time x) (ri_key x) (ri_proto x) (ri_stat x) (ri_pend x) (ri_lastpend x) (ri_dial x) (ri_resolved x) (ri_popc x) (ri_d6 x) (ri_avail x) (ri_aband x) (ri_poph x) (ri_popx x).
+Definition set_ri_time (v : N) (x : rinfo) : rinfo := mkRi (ri_at x) v (ri_key x) (ri_proto x) (ri_stat x) (ri_pend x) (ri_lastpend x) (ri_dial x) (ri_resolved x) (ri_popc x) (ri_d6 x) (ri_avail x) (ri_aband x) (ri_poph x) (ri_popx x).
+Definition set_ri_key (v : option key) (x : rinfo) : rinfo := mkRi (ri_at x) (ri_time x) v (ri_proto x) (ri_stat x) (ri_pend x) (ri_lastpend x) (ri_dial x) (ri_resolved x) (ri_popc x) (ri_d6 x) (ri_avail x) (ri_aband x) (ri_poph x) (ri_popx x).
+Definition set_ri_proto (v : proto) (x : rinfo) : rinfo := mkRi (ri_at x) (ri_time x) (ri_key x) v (ri_stat x) (ri_pend x) (ri_lastpend x) (ri_dial x) (ri_resolved x) (ri_popc x) (ri_d6 x) (ri_avail x) (ri_aband x) (ri_poph x) (ri_popx x).
+Definition set_ri_stat (v : rstat) (x : rinfo) : rinfo := mkRi (ri_at x) (ri_time x) (ri_key x) (ri_proto x) v (ri_pend x) (ri_lastpend x) (ri_dial x) (ri_resolved x) (ri_popc x) (ri_d6 x) (ri_avail x) (ri_aband x) (ri_poph x) (ri_popx x).
+Definition set_ri_pend (v : bool) (x : rinfo) : rinfo := mkRi (ri_at x) (ri_time x) (ri_key x) (ri_proto x) (ri_stat x) v (ri_lastpend x) (ri_dial x) (ri_resolved x) (ri_popc x) (ri_d6 x) (ri_avail x) (ri_aband x) (ri_poph x) (ri_popx x).
+Definition set_ri_lastpend (v : nat) (x : rinfo) : rinfo := mkRi (ri_at x) (ri_time x) (ri_key x) (ri_proto x) (ri_stat x) (ri_pend x) v (ri_dial x) (ri_resolved x) (ri_popc x) (ri_d6 x) (ri_avail x) (ri_aband x) (ri_poph x) (ri_popx x).
+Definition set_ri_dial (v : dstat) (x : rinfo) : rinfo := mkRi (ri_at x) (ri_time x) (ri_key x) (ri_proto x) (ri_stat x) (ri_pend x) (ri_lastpend x) v (ri_resolved x) (ri_popc x) (ri_d6 x) (ri_avail x) (ri_aband x) (ri_poph x) (ri_popx x).
+Definition set_ri_resolved (v : option bool) (x : rinfo) : rinfo := mkRi (ri_at x) (ri_time x) (ri_key x) (ri_proto x) (ri_stat x) (ri_pend x) (ri_lastpend x) (ri_dial x) v (ri_popc x) (ri_d6 x) (ri_avail x) (ri_aband x) (ri_poph x) (ri_popx x).
+Definition set_ri_popc (v : option nat) (x : rinfo) : rinfo := mkRi (ri_at x) (ri_time x) (ri_key x) (ri_proto x) (ri_stat x) (ri_pend x) (ri_lastpend x) (ri_dial x) (ri_resolved x) v (ri_d6 x) (ri_avail x) (ri_aband x) (ri_poph x) (ri_popx x).
+Definition set_ri_d6 (v : bool) (x : rinfo) : rinfo := mkRi (ri_at x) (ri_time x) (ri_key x) (ri_proto x) (ri_stat x) (ri_pend x) (ri_lastpend x) (ri_dial x) (ri_resolved x) (ri_popc x) v (ri_avail x) (ri_aband x) (ri_poph x) (ri_popx x).
+Definition set_ri_avail (v : bool) (x : rinfo) : rinfo := mkRi (ri_at x) (ri_time x) (ri_key x) (ri_proto x) (ri_stat x) (ri_pend x) (ri_lastpend x) (ri_dial x) (ri_resolved x) (ri_popc x) (ri_d6 x) v (ri_aband x) (ri_poph x) (ri_popx x).
+Definition set_ri_aband (v : bool) (x : rinfo) : rinfo := mkRi (ri_at x) (ri_time x) (ri_key x) (ri_proto x) (ri_stat x) (ri_pend x) (ri_lastpend x) (ri_dial x) (ri_resolved x) (ri_popc x) (ri_d6 x) (ri_avail x) v (ri_poph x) (ri_popx x).
+Definition set_ri_poph (v : option nat) (x : rinfo) : rinfo := mkRi (ri_at x) (ri_time x) (ri_key x) (ri_proto x) (ri_stat x) (ri_pend x) (ri_lastpend x) (ri_dial x) (ri_resolved x) (ri_popc x) (ri_d6 x) (ri_avail x) (ri_aband x) v (ri_popx x).
+Definition set_ri_popx (v : option nat) (x : rinfo) : rinfo := mkRi (ri_at x) (ri_time x) (ri_key x) (ri_proto x) (ri_stat x) (ri_pend x) (ri_lastpend x) (ri_dial x) (ri_resolved x) (ri_popc x) (ri_d6 x) (ri_avail x) (ri_aband x) (ri_poph x) v.
 
 (* per connection:  ci_origin: the request whose dial created it;  ci_closed: op index of the first
    ConnClose / Upgrade;  ci_back/ci_back_time: op index / clock of its last hand-back to the pool (or
    creation);  ci_rel_ready: released and reported ready since its last hand-off;  ci_offer: op index
-   at which the pool offered it to a waiting request (cleared by the hand-off) *)
+   at which the pool offered it to a waiting request (cleared by the hand-off);  ci_idle_time: clock at
+   which it entered the idle list it sits in *)
 Record cinfo := mkCi {
   ci_origin : nat;
   ci_share : bool;
@@ -65,19 +73,21 @@ Record cinfo := mkCi {
   ci_rel_ready : bool;
   ci_upgraded : bool;
   ci_dropped : bool;
-  ci_offer : option nat
+  ci_offer : option nat;
+  ci_idle_time : N
 }.
-Definition set_ci_origin (v : nat) (x : cinfo) : cinfo := mkCi v (ci_share x) (ci_new_at x) (ci_closed x) (ci_back x) (ci_back_time x) (ci_holder x) (ci_rel_ready x) (ci_upgraded x) (ci_dropped x) (ci_offer x).
-Definition set_ci_share (v : bool) (x : cinfo) : cinfo := mkCi (ci_origin x) v (ci_new_at x) (ci_closed x) (ci_back x) (ci_back_time x) (ci_holder x) (ci_rel_ready x) (ci_upgraded x) (ci_dropped x) (ci_offer x).
-Definition set_ci_new_at (v : nat) (x : cinfo) : cinfo := mkCi (ci_origin x) (ci_share x) v (ci_closed x) (ci_back x) (ci_back_time x) (ci_holder x) (ci_rel_ready x) (ci_upgraded x) (ci_dropped x) (ci_offer x).
-Definition set_ci_closed (v : option nat) (x : cinfo) : cinfo := mkCi (ci_origin x) (ci_share x) (ci_new_at x) v (ci_back x) (ci_back_time x) (ci_holder x) (ci_rel_ready x) (ci_upgraded x) (ci_dropped x) (ci_offer x).
-Definition set_ci_back (v : nat) (x : cinfo) : cinfo := mkCi (ci_origin x) (ci_share x) (ci_new_at x) (ci_closed x) v (ci_back_time x) (ci_holder x) (ci_rel_ready x) (ci_upgraded x) (ci_dropped x) (ci_offer x).
-Definition set_ci_back_time (v : N) (x : cinfo) : cinfo := mkCi (ci_origin x) (ci_share x) (ci_new_at x) (ci_closed x) (ci_back x) v (ci_holder x) (ci_rel_ready x) (ci_upgraded x) (ci_dropped x) (ci_offer x).
-Definition set_ci_holder (v : option nat) (x : cinfo) : cinfo := mkCi (ci_origin x) (ci_share x) (ci_new_at x) (ci_closed x) (ci_back x) (ci_back_time x) v (ci_rel_ready x) (ci_upgraded x) (ci_dropped x) (ci_offer x).
-Definition set_ci_rel_ready (v : bool) (x : cinfo) : cinfo := mkCi (ci_origin x) (ci_share x) (ci_new_at x) (ci_closed x) (ci_back x) (ci_back_time x) (ci_holder x) v (ci_upgraded x) (ci_dropped x) (ci_offer x).
-Definition set_ci_upgraded (v : bool) (x : cinfo) : cinfo := mkCi (ci_origin x) (ci_share x) (ci_new_at x) (ci_closed x) (ci_back x) (ci_back_time x) (ci_holder x) (ci_rel_ready x) v (ci_dropped x) (ci_offer x).
-Definition set_ci_dropped (v : bool) (x : cinfo) : cinfo := mkCi (ci_origin x) (ci_share x) (ci_new_at x) (ci_closed x) (ci_back x) (ci_back_time x) (ci_holder x) (ci_rel_ready x) (ci_upgraded x) v (ci_offer x).
-Definition set_ci_offer (v : option nat) (x : cinfo) : cinfo := mkCi (ci_origin x) (ci_share x) (ci_new_at x) (ci_closed x) (ci_back x) (ci_back_time x) (ci_holder x) (ci_rel_ready x) (ci_upgraded x) (ci_dropped x) v.
+Definition set_ci_origin (v : nat) (x : cinfo) : cinfo := mkCi v (ci_share x) (ci_new_at x) (ci_closed x) (ci_back x) (ci_back_time x) (ci_holder x) (ci_rel_ready x) (ci_upgraded x) (ci_dropped x) (ci_offer x) (ci_idle_time x).
+Definition set_ci_share (v : bool) (x : cinfo) : cinfo := mkCi (ci_origin x) v (ci_new_at x) (ci_closed x) (ci_back x) (ci_back_time x) (ci_holder x) (ci_rel_ready x) (ci_upgraded x) (ci_dropped x) (ci_offer x) (ci_idle_time x).
+Definition set_ci_new_at (v : nat) (x : cinfo) : cinfo := mkCi (ci_origin x) (ci_share x) v (ci_closed x) (ci_back x) (ci_back_time x) (ci_holder x) (ci_rel_ready x) (ci_upgraded x) (ci_dropped x) (ci_offer x) (ci_idle_time x).
+Definition set_ci_closed (v : option nat) (x : cinfo) : cinfo := mkCi (ci_origin x) (ci_share x) (ci_new_at x) v (ci_back x) (ci_back_time x) (ci_holder x) (ci_rel_ready x) (ci_upgraded x) (ci_dropped x) (ci_offer x) (ci_idle_time x).
+Definition set_ci_back (v : nat) (x : cinfo) : cinfo := mkCi (ci_origin x) (ci_share x) (ci_new_at x) (ci_closed x) v (ci_back_time x) (ci_holder x) (ci_rel_ready x) (ci_upgraded x) (ci_dropped x) (ci_offer x) (ci_idle_time x).
+Definition set_ci_back_time (v : N) (x : cinfo) : cinfo := mkCi (ci_origin x) (ci_share x) (ci_new_at x) (ci_closed x) (ci_back x) v (ci_holder x) (ci_rel_ready x) (ci_upgraded x) (ci_dropped x) (ci_offer x) (ci_idle_time x).
+Definition set_ci_holder (v : option nat) (x : cinfo) : cinfo := mkCi (ci_origin x) (ci_share x) (ci_new_at x) (ci_closed x) (ci_back x) (ci_back_time x) v (ci_rel_ready x) (ci_upgraded x) (ci_dropped x) (ci_offer x) (ci_idle_time x).
+Definition set_ci_rel_ready (v : bool) (x : cinfo) : cinfo := mkCi (ci_origin x) (ci_share x) (ci_new_at x) (ci_closed x) (ci_back x) (ci_back_time x) (ci_holder x) v (ci_upgraded x) (ci_dropped x) (ci_offer x) (ci_idle_time x).
+Definition set_ci_upgraded (v : bool) (x : cinfo) : cinfo := mkCi (ci_origin x) (ci_share x) (ci_new_at x) (ci_closed x) (ci_back x) (ci_back_time x) (ci_holder x) (ci_rel_ready x) v (ci_dropped x) (ci_offer x) (ci_idle_time x).
+Definition set_ci_dropped (v : bool) (x : cinfo) : cinfo := mkCi (ci_origin x) (ci_share x) (ci_new_at x) (ci_closed x) (ci_back x) (ci_back_time x) (ci_holder x) (ci_rel_ready x) (ci_upgraded x) v (ci_offer x) (ci_idle_time x).
+Definition set_ci_offer (v : option nat) (x : cinfo) : cinfo := mkCi (ci_origin x) (ci_share x) (ci_new_at x) (ci_closed x) (ci_back x) (ci_back_time x) (ci_holder x) (ci_rel_ready x) (ci_upgraded x) (ci_dropped x) v (ci_idle_time x).
+Definition set_ci_idle_time (v : N) (x : cinfo) : cinfo := mkCi (ci_origin x) (ci_share x) (ci_new_at x) (ci_closed x) (ci_back x) (ci_back_time x) (ci_holder x) (ci_rel_ready x) (ci_upgraded x) (ci_dropped x) (ci_offer x) v.
 
 Record mst := mkM {
   m_i : nat;
@@ -126,13 +136,16 @@ Definition usable (cfg : config) (m : mst) (c : nat) : bool :=
   | None => false
   end.
 
+Definition open_conn (m : mst) (c : nat) : bool :=
+  match nth_error (m_conns m) c with Some x => match ci_closed x with None => true | Some _ => false end | None => true end.
+
 (* the tracker's reading of one event *)
 Definition track_ev (m : mst) (e : ev) : mst :=
   match e with
   | EDial r _ => ri_upd (set_ri_dial DsFlying) r m
   | ENew c sh r =>
       let m := ri_upd (set_ri_dial DsOver) r m in
-      set_m_conns (m_conns m ++ [mkCi r sh (m_i m) None (m_i m) (m_time m) None true false false None]) m
+      set_m_conns (m_conns m ++ [mkCi r sh (m_i m) None (m_i m) (m_time m) None true false false None (m_time m)]) m
   | EHand r c _ _ _ _ =>
       let own := match nth_error (m_conns m) c with Some x => Nat.eqb (ci_origin x) r && Nat.eqb (ci_new_at x) (m_i m) | None => false end in
       let m := ri_upd (fun x => set_ri_stat (SHeld c)
@@ -167,9 +180,7 @@ Definition is_live (x : rinfo) : bool := match ri_stat x with SLive => true | _ 
 Definition h2_handle_out (m : mst) (r : nat) (k : option key) : bool :=
   existsb (fun ix => let '(i, x) := ix in
                      negb (Nat.eqb i r) && same_key (ri_key x) k && is_live x
-                     && match ri_popc x with
-                        | Some c => match nth_error (m_conns m) c with Some y => ci_share y && match ci_closed y with None => true | _ => false end | None => false end
-                        | None => false end)
+                     && match ri_poph x with Some _ => true | None => false end)
           (combine (seq 0 (List.length (m_reqs m))) (m_reqs m)).
 
 (* the tracker's reading of the operation itself (before its events) *)
@@ -185,8 +196,14 @@ Definition track_op (cfg : config) (m : mst) (o : op) (ob : opobs) : mst :=
       let before := idle_of (o_snap (m_prev m)) t in
       let popc := popped_conn cfg m before (idle_of (o_snap ob) t) in
       let avail := existsb (usable cfg m) before in
+      let popx := match skipn (List.length (idle_of (o_snap ob) t)) before with c :: _ => Some c | [] => None end in
+      let poph := match skipn (List.length (idle_of (o_snap ob) t)) before with
+                  | c :: _ => match nth_error (m_conns m) c with
+                              | Some y => if ci_share y && match ci_closed y with None => true | _ => false end then Some c else None
+                              | None => None end
+                  | [] => None end in
       set_m_keys ks (set_m_reqs (m_reqs m ++ [mkRi (m_i m) (m_time m) k p SLive false 0 DsNone None popc
-                                                  (h2_handle_out m (List.length (m_reqs m)) k) avail false]) m)
+                                                  (h2_handle_out m (List.length (m_reqs m)) k) avail false poph popx]) m)
   | Cancel r =>
       match nth_error (m_reqs m) r with
       | Some x => match ri_stat x with
@@ -224,9 +241,17 @@ Definition track_offer (ob : opobs) (m : mst) (e : ev) : mst :=
   | _ => m
   end.
 
+(* the instant at which a connection entered the idle list it sits in: the clock of the first op after
+   which the snapshot shows it there (IdleConnections stamps entries when they are pushed) *)
+Definition track_idle_stamp (prev : list snap) (m : mst) (sn : snap) : mst :=
+  fold_left (fun m c => if mem c (idle_of prev (sn_token sn)) then m else ci_upd (set_ci_idle_time (m_time m)) c m)
+            (sn_idle sn) m.
+
 Definition track (cfg : config) (m : mst) (o : op) (ob : opobs) : mst :=
+  let prev := o_snap (m_prev m) in
   let m := fold_left track_ev (o_events ob) (track_op cfg m o ob) in
   let m := fold_left (track_offer ob) (o_events ob) m in
+  let m := fold_left (track_idle_stamp prev) (o_snap ob) m in
   set_m_prev ob (set_m_i (S (m_i m)) m).
 
 (* generic driver: [chk] judges one op given the tracker state before it *)
@@ -294,8 +319,9 @@ Definition mon_C02 := mon_with chk_C02.
 (* ------------------------------------------------------------------ C05 *)
 (* a connection handed to request r was not closed before it was acquired for r, where the
    acquisition instant is the later of (Issue r) and (the connection's last hand-back to the pool /
-   its creation); and, for a non-zero idle timeout d, a connection that r's Issue took from the idle
-   list had not been idle longer than d *)
+   its creation); and, for a non-zero idle timeout d, the connection that r's Issue took out of the idle
+   list (ri_popx: read off the snapshots) had not sat in it longer than d (ci_idle_time: the clock when
+   the snapshot first showed it in that list) *)
 Definition chk_ev_C05 (cfg : config) (m : mst) (e : ev) : bool :=
   match e with
   | EHand r c _ _ _ _ =>
@@ -303,9 +329,9 @@ Definition chk_ev_C05 (cfg : config) (m : mst) (e : ev) : bool :=
       | Some x, Some y =>
           let acq := Nat.max (ci_back x) (ri_at y) in
           match ci_closed x with Some cl => negb (Nat.ltb cl acq) | None => true end
-          && match g_timeout cfg, ri_popc y with
-             | Some d, Some c' => if N.ltb 0 d && Nat.eqb c c' && Nat.ltb (ci_back x) (ri_at y)
-                                  then N.leb (ri_time y - ci_back_time x) d else true
+          && match g_timeout cfg, ri_popx y with
+             | Some d, Some c' => if N.ltb 0 d && Nat.eqb c c'
+                                  then N.leb (ri_time y - ci_idle_time x) d else true
              | _, _ => true
              end
       | _, _ => false
@@ -405,8 +431,16 @@ Definition chk_ev_C04 (d6 : bool) (cfg : config) (ob : opobs) (m : mst) (e : ev)
       end
   | _ => true
   end.
+(* S4 / S1-kept at the level of the snapshot: after every operation no origin has both a request
+   still waiting for a connection and an open connection parked in its idle list (a connection that
+   comes back to the pool - by hand-back or because the checkout that popped it is dropped - is
+   offered to the waiting requests, so that they do not dial for nothing) *)
+Definition no_parked_while_waiting (cfg : config) (m : mst) (ob : opobs) : bool :=
+  forallb (fun sn => Nat.eqb (sn_live sn) 0 || forallb (fun c => negb (open_conn m c && usable cfg m c)) (sn_idle sn)) (o_snap ob).
+
 Definition chk_C04 (d6 : bool) (cfg : config) (m : mst) (o : op) (ob : opobs) : bool :=
-  evs_ok (chk_ev_C04 d6 cfg ob) (track_op cfg m o ob) (o_events ob).
+  evs_ok (chk_ev_C04 d6 cfg ob) (track_op cfg m o ob) (o_events ob)
+  && no_parked_while_waiting cfg (fold_left track_ev (o_events ob) (track_op cfg m o ob)) ob.
 Definition mon_C04 := mon_with (chk_C04 true).
 Definition mon_C04_but_D6 := mon_with (chk_C04 false).
 
@@ -428,6 +462,19 @@ Definition chk_ev_C14 (cfg : config) (o : op) (ob : opobs) (m : mst) (e : ev) : 
       match nth_error (m_conns m) c, nth_error (m_reqs m) r with
       | Some x, Some y => match ci_offer x with Some i0 => Nat.leb (ri_lastpend y) (S i0) | None => true end
       | _, _ => false
+      end
+  | EPend r =>
+      (* (a3) a request is not left waiting for its own dial while an open connection for its origin
+              sits parked in the idle list *)
+      match nth_error (m_reqs m) r with
+      | Some y =>
+          if g_pool cfg && is_live y && match ri_dial y with DsFlying => true | _ => false end then
+            forallb (fun c => match nth_error (m_conns m) c with
+                              | Some x => ci_share x || negb (open_conn m c && usable cfg m c)
+                              | None => true end)
+                    (idle_of (o_snap ob) (key_tok m (ri_key y)))
+          else true
+      | None => false
       end
   | ENew c sh r =>
       match nth_error (m_reqs m) r with
